@@ -63,7 +63,12 @@ ActLin(s, rem, ops, st) ==
 
 CheckLine(k) ==
   LET t == Trace[k] IN
-  /\ Clause("C16_callsReturn", t.ev # "hang", "", k)
+  \* every call returns, the engine process survives (known finding, open: the table's auto-sit-in machinery -- a ready group
+  \* re-armed under the engine lock, signalled and completed without it -- races with membership calls; the signatures are
+  \* read off the goroutine stacks / the panic message by the harness)
+  /\ Clause("C16_callsReturn", t.ev # "hang", IF t.sig \in {"syncsaga-recursive-rlock", "ready-on-nil-channel"} THEN "KF-C16-autoin-race" ELSE "", k)
+  /\ Clause("C16_noCrash", t.ev # "crash", IF t.sig = "autoin-race-panic" THEN "KF-C16-autoin-race" ELSE "", k)
+  /\ t.ev = "churn" => Clause("C16_consistentAfter", MConsistent(ToMC(t.st)), "", k)
   /\ t.ev = "batch" =>
        LET post == ToMC(t.st) IN
        /\ Clause("C16_consistentAfter", MConsistent(post), "", k)
